@@ -21,7 +21,7 @@ def variants(rng, text, toks, full):
     for gi in range(n + 1):
         pos = toks[gi].start if gi < n else len(text)
         ctx = "before-first" if gi == 0 else "after-last" if gi == n else "after-%s-before-%s" % (toks[gi - 1].kind, toks[gi].kind)
-        for c in (b"/*c*/", b"//c\n", b"/* * / ** */", b"/**/"):
+        for c in (b"/*c*/", b"//c\n", b"/* * / ** */", b"/**/", b"/***/", b"/* c **/", b"//\n"):
             if full or rng.random() < 0.5:
                 yield "comment", ctx, text[:pos] + c + text[pos:], True, None
     for ti, t in enumerate(toks):
